@@ -25,8 +25,10 @@ def rand_schedule(rng):
     k = rng.random()
     if k < 0.1:
         return []
-    if k < 0.25:
+    if k < 0.18:
         return [round(rng.uniform(0.2, 20), 2)]
+    if k < 0.25:
+        return rng.choice([[0.0], [0.0, 0.5], [0.0, 0.0], [1e-9]])
     if k < 0.45:
         return rng.choice([DEFAULT, STEP, RELAXED])
     n = rng.randint(2, 8)
@@ -51,6 +53,11 @@ def check(run):
     with pool() as p:
         # ---- mode 0 through check_and_fix_contrast
         pairs, _ = gen_pairs(run.rng, n0)
+        import colorsys
+        for _ in range(n0 // 3):
+            # saturated cyan/green text at the gamut edge on arbitrary backgrounds (the descent phase moves there)
+            t = tuple(int(round(255 * x)) for x in colorsys.hsv_to_rgb(run.rng.uniform(0.25, 0.6), run.rng.uniform(0.85, 1.0), run.rng.uniform(0.85, 1.0)))
+            pairs.append((t, rand_rgb(run.rng)))
         cases = [(t, b, run.rng.randrange(2), 0, run.rng.randrange(2)) for t, b in pairs]
         impl = correspond_caf(run, cases, p, tag="mode0")
         okc = [(c, r) for c, r in zip(cases, impl) if r[0] != "raise"]
@@ -73,10 +80,15 @@ def check(run):
                 (t, b), = gen_pairs(run.rng, 1)[0]
             k = run.rng.random()
             target = run.rng.choice([3.0, 4.5, 7.0, round(run.rng.uniform(1.0, 21.0), 2)])
+            tol = round(run.rng.uniform(0.1, 25), 2) if run.rng.random() < 0.9 else run.rng.choice([0.0, 0.0, 0.01, 1e-9])
+            if run.rng.random() < 0.25:
+                # saturated text at the gamut edge: where the lightness-and-chroma descent actually moves
+                import colorsys
+                t = tuple(int(round(255 * x)) for x in colorsys.hsv_to_rgb(run.rng.uniform(0.25, 0.6), run.rng.uniform(0.85, 1.0), run.rng.uniform(0.85, 1.0)))
             if k < 0.35:
-                rc.append(("bs", t, b, round(run.rng.uniform(0.1, 25), 2), target))
+                rc.append(("bs", t, b, tol, target))
             elif k < 0.6:
-                rc.append(("gd", t, b, round(run.rng.uniform(0.1, 25), 2), target))
+                rc.append(("gd", t, b, tol, target))
             else:
                 minc = run.rng.choice([3.0, 4.5, 7.0, target])
                 rc.append(("gen", t, b, target, minc, rand_schedule(run.rng)))
